@@ -78,7 +78,7 @@ func (ex *Exec) load(st *State, lp *LPath) string {
 		if lp.Base.Sort.K == KString {
 			return "(str.to_code (str.at " + base + " " + lp.Idx + "))"
 		}
-		return "(seq.nth " + base + " " + lp.Idx + ")"
+		return ex.vc.nth(base, lp.Idx, lp.Base.Sort.Elem)
 	case "sub":
 		return "(" + lp.Struct + "_" + lp.Field + " " + ex.load(st, lp.Base) + ")"
 	case "value":
@@ -308,7 +308,7 @@ func (fr *Frame) execInstr(ins ssa.Instruction) {
 		if x.S.K == KString {
 			fr.setVal(i, &Val{T: "(str.to_code (str.at " + x.T + " " + idx.T + "))", S: SInt})
 		} else {
-			fr.setVal(i, &Val{T: "(seq.nth " + x.T + " " + idx.T + ")", S: x.S.Elem})
+			fr.setVal(i, &Val{T: ex.vc.nth(x.T, idx.T, x.S.Elem), S: x.S.Elem})
 		}
 	case *ssa.Lookup:
 		x := fr.val(i.X)
@@ -870,3 +870,21 @@ func (fr *Frame) allocBounded(ins ssa.Instruction, n *Val) {
 	name := ex.oblName(fmt.Sprintf("%s/alloc-bounded@%s", fr.key, exprText(ex, ins)))
 	ex.vc.oblige("alloc-bounded", name, fr.curReach, "(<= "+n.T+" 65536)", "make size bounded", ex.posOf(ins.Pos()), [][2]string{{"size", n.T}})
 }
+
+// nth renders sequence indexing through a bridging function nth_<sort>, axiomatised equal to seq.nth.
+// z3 rewrites seq.nth internally, so it cannot serve as an E-matching trigger; nth_<sort> can.
+func (vc *VC) nth(s, idx string, elem *Sort) string {
+	name := "nth_" + elem.Ident()
+	if preludeHas[name] {
+		return "(" + name + " " + s + " " + idx + ")"
+	}
+	if !vc.declared[name] {
+		vc.declared[name] = true
+		seq := "(Seq " + elem.SMT() + ")"
+		vc.cmds = append(vc.cmds, fmt.Sprintf("(declare-fun %s (%s Int) %s)", name, seq, elem.SMT()))
+		vc.cmds = append(vc.cmds, fmt.Sprintf("(assert (forall ((s %s) (i Int)) (! (= (%s s i) (seq.nth s i)) :pattern ((%s s i)))))", seq, name, name))
+	}
+	return "(" + name + " " + s + " " + idx + ")"
+}
+
+var preludeHas = map[string]bool{}
